@@ -953,7 +953,7 @@ def rule_weak_protocol(ctx):
                 r.violate(f, "token", "from zero the weak increment must add count+1 (token for the pending try_dealloc), "
                           "otherwise count", s["event"].loc())
     # (4) who calls dealloc
-    callers = sorted({b.name for (b, bi, t, c) in prog.callers_of(DEALLOC)})
+    callers = sorted({prog.home(b.name) for (b, bi, t, c) in prog.callers_of(DEALLOC)})
     ok = callers == sorted([TRY_DEALLOC, DGN])
     r.instance("dealloc callers = %s" % callers, ok)
     n += 1
@@ -996,13 +996,13 @@ def rule_deferred_only(ctx):
             raise AnalysisError("CW-DEFERRED-ONLY: %s has no callers (anchor lost?)" % target)
     for (b, bi, t, c) in prog.callers_of(DISPOSE):
         n += 1
-        ok = b.name == TRY_DESTRUCT
+        ok = prog.home(b.name) == TRY_DESTRUCT
         r.instance("dispose <- %s" % b.name, ok)
         if not ok:
             r.violate(b.name, "call:dispose", "dispose may only be called from try_destruct", b.loc(bi))
     for (b, bi, t, c) in prog.callers_of(DGN):
         n += 1
-        ok = b.name in (DGN,) or (b.kind == "closure" and b.j.get("root") == DISPOSE)
+        ok = prog.home(b.name) in (DGN, DISPOSE)
         r.instance("dispose_general_node <- %s" % b.name, ok)
         if not ok:
             r.violate(b.name, "call:dispose_general_node", "dispose_general_node may only be called from dispose and itself",
@@ -1038,9 +1038,9 @@ def rule_deferred_only(ctx):
     # unprotected(): only inside ebr_impl, not re-exported
     ups = prog.callers_of("ebr_impl::guard::unprotected")
     for (b, bi, t, c) in ups:
-        ok = b.name.startswith("ebr_impl::") or b.name.startswith("<ebr_impl::")
+        ok = prog.home(b.name).startswith("ebr_impl::") or prog.home(b.name).startswith("<ebr_impl::")
         n += 1
-        r.instance("unprotected() <- %s" % b.name, ok)
+        r.instance("unprotected() <- %s" % prog.home(b.name), ok)
         if not ok:
             r.violate(b.name, "call:unprotected", "unprotected() guard used by the reference-counting layer", b.loc(bi))
     pub = [x["name"] for x in prog.items["root_public"]]
